@@ -15,6 +15,11 @@ conservative: anything not recognised is `unknown:<why>`, which the Tie A theore
                  may-suppress  `__exit__` can return something other than None / False, or the
                                generator catches BaseException / SystemExit around its `yield`
     try-scope    reraises      every such handler ends in `raise` (or a call of a fatal / exit)
+                 reraises-reemitting-captured-stderr
+                               as `reraises`, and the handler has exactly the pinned shape that hands the
+                               lines captured by the `with redirect_stderr(S)` of the try body back to
+                               sys.stderr, except those of one message family, which it replaces by a
+                               fatal of its own (see `capture_handler_shape`)
                  may-swallow   a handler can fall through
 """
 from __future__ import annotations
@@ -79,6 +84,64 @@ def _ends_in_raise(body) -> bool:
     if isinstance(last, ast.If):
         return _ends_in_raise(last.body) and _ends_in_raise(last.orelse)
     return False
+
+
+def capture_handler_shape(t: ast.Try):
+    """The shape of rattr/analyser/util.py::parse_rattr_results_from_annotation_args_impl:
+
+        try:
+            with redirect_stderr(S): ...
+        except SystemExit as exc:
+            V = S.getvalue()
+            for L in V.splitlines():
+                if "<family>" in L:  F = True
+                else:                print(L, file=sys.stderr)
+            if F: error.fatal(...)
+            raise exc
+
+    -> (family text, unparsed emission statement, replacement callee) or None. Anything else in
+    the handler than these four statements (e.g. a bare `print(L)`, no emission at all, a second
+    loop) is not the shape."""
+    streams = []
+    for n in t.body:
+        if isinstance(n, (ast.With, ast.AsyncWith)):
+            for item in n.items:
+                if _callee(item.context_expr) in STDLIB_CAPTURING and isinstance(item.context_expr, ast.Call) and item.context_expr.args:
+                    streams.append(ast.unparse(item.context_expr.args[0]))
+    if len(t.body) != 1 or len(streams) != 1 or len(t.handlers) != 1:
+        return None
+    h = t.handlers[0]
+    if h.name is None or len(h.body) != 4:
+        return None
+    assign, loop, cond, rais = h.body
+    if not (isinstance(assign, ast.Assign) and len(assign.targets) == 1 and isinstance(assign.targets[0], ast.Name)
+            and ast.unparse(assign.value) == f"{streams[0]}.getvalue()"):
+        return None
+    text = assign.targets[0].id
+    if not (isinstance(loop, ast.For) and isinstance(loop.target, ast.Name) and not loop.orelse
+            and ast.unparse(loop.iter) == f"{text}.splitlines()" and len(loop.body) == 1 and isinstance(loop.body[0], ast.If)):
+        return None
+    var, branch = loop.target.id, loop.body[0]
+    test = branch.test
+    if not (isinstance(test, ast.Compare) and len(test.ops) == 1 and isinstance(test.ops[0], ast.In)
+            and isinstance(test.left, ast.Constant) and isinstance(test.left.value, str)
+            and isinstance(test.comparators[0], ast.Name) and test.comparators[0].id == var):
+        return None
+    if not (len(branch.body) == 1 and isinstance(branch.body[0], ast.Assign) and len(branch.body[0].targets) == 1
+            and isinstance(branch.body[0].targets[0], ast.Name) and isinstance(branch.body[0].value, ast.Constant)
+            and branch.body[0].value.value is True):
+        return None
+    flag = branch.body[0].targets[0].id
+    if not (len(branch.orelse) == 1 and isinstance(branch.orelse[0], ast.Expr) and isinstance(branch.orelse[0].value, ast.Call)):
+        return None
+    emission = ast.unparse(branch.orelse[0])
+    if not (isinstance(cond, ast.If) and isinstance(cond.test, ast.Name) and cond.test.id == flag and not cond.orelse
+            and len(cond.body) == 1 and isinstance(cond.body[0], ast.Expr) and isinstance(cond.body[0].value, ast.Call)):
+        return None
+    replacement = ast.unparse(cond.body[0].value.func)
+    if not (isinstance(rais, ast.Raise) and rais.exc is not None and ast.unparse(rais.exc) == h.name):
+        return None
+    return test.left.value, emission.replace(var, "LINE"), replacement
 
 
 def class_exit_verdict(cls: ast.ClassDef) -> str:
@@ -166,6 +229,7 @@ class _FnScan(ast.NodeVisitor):
         self.rel, self.defs, self.out = rel, defs, out
         self.stack = []
         self.counts = {}
+        self.tries = []
 
     @property
     def where(self):
@@ -173,7 +237,9 @@ class _FnScan(ast.NodeVisitor):
 
     def _enter(self, node):
         self.stack.append(node.name)
+        saved, self.tries = self.tries, []      # a nested def does not run inside the outer try
         self.generic_visit(node)
+        self.tries = saved
         self.stack.pop()
 
     visit_FunctionDef = visit_AsyncFunctionDef = visit_ClassDef = _enter
@@ -189,7 +255,7 @@ class _FnScan(ast.NodeVisitor):
             callee = _callee(item.context_expr)
             self.out.append({
                 "id": self._id("with " + callee), "file": self.rel, "function": self.where, "kind": "with",
-                "what": callee, "verdict": callee_verdict(callee, self.defs),
+                "what": callee, "verdict": callee_verdict(callee, self.defs), "enclosing_try": self.tries[-1] if self.tries else "",
                 "first": node.body[0].lineno, "last": max(getattr(s, "end_lineno", s.lineno) for s in node.body),
                 "arg": ast.unparse(item.context_expr.args[0]) if isinstance(item.context_expr, ast.Call) and item.context_expr.args else "",
             })
@@ -202,12 +268,28 @@ class _FnScan(ast.NodeVisitor):
         if catchers:
             what = "+".join(ast.unparse(h.type) if h.type is not None else "<bare>" for h in catchers)
             verdict = "reraises" if all(_ends_in_raise(h.body) for h in catchers) else "may-swallow"
+            shape = capture_handler_shape(node)
+            if verdict == "reraises" and shape is not None and shape[1] == "print(LINE, file=sys.stderr)" \
+                    and shape[2] in ("error.fatal", "fatal"):
+                verdict = "reraises-reemitting-captured-stderr"
+            sid = self._id("except " + what)
             self.out.append({
-                "id": self._id("except " + what), "file": self.rel, "function": self.where, "kind": "try",
-                "what": what, "verdict": verdict,
+                "id": sid, "file": self.rel, "function": self.where, "kind": "try",
+                "what": what, "verdict": verdict, "enclosing_try": self.tries[-1] if self.tries else "",
                 "first": node.body[0].lineno, "last": max(getattr(s, "end_lineno", s.lineno) for s in node.body),
-                "arg": "",
+                "handler_first": min(h.body[0].lineno for h in catchers),
+                "handler_last": max(getattr(h.body[-1], "end_lineno", h.body[-1].lineno) for h in catchers),
+                "shape": shape, "arg": "",
             })
+            # only the try *body* is protected by the handlers
+            self.tries.append(sid)
+            for st in node.body:
+                self.visit(st)
+            self.tries.pop()
+            for part in (node.handlers, node.orelse, node.finalbody):
+                for st in part:
+                    self.visit(st)
+            return
         self.generic_visit(node)
 
     visit_TryStar = visit_Try
